@@ -497,9 +497,9 @@ func (r *rwRT) rulePass0() {
 		})
 	// contexts: directly in the generator (default), inside a nested plain closure, inside a nested generator closure
 	type ctx struct {
-		name   string
-		inGen  bool
-		setup  func(st *State) (*State, bool)
+		name  string
+		inGen bool
+		setup func(st *State) (*State, bool)
 	}
 	enterLit := func(isGen bool) func(st *State) (*State, bool) {
 		return func(st *State) (*State, bool) {
@@ -543,27 +543,34 @@ func (r *rwRT) rulePass0() {
 				mark := len(st.Events)
 				outs := d.step(st, d.pst, n)
 				construct := fmt.Sprintf("%s: %s with %s init", cx.name, strings.TrimSuffix(kind, "Stmt"), map[bool]string{true: "':='", false: "'='"}[define])
-				if len(outs) != 1 || outs[0].Panicked {
-					c.bad("RW.TMPL.HOIST", construct, pos, "post-order callback is not a single path on this node")
-					continue
-				}
-				o := outs[0]
-				edits := cursorEdits(o.St, mark)
 				wantHoist := cx.inGen && define
 				var err error
-				if wantHoist {
-					if len(edits) != 1 || edits[0].Fn.Name() != "Replace" {
-						err = fmt.Errorf("expected exactly one Replace, got %d edit(s)", len(edits))
-					} else {
-						err = matchTmpl(o.St, edits[0].Args[1], nd("BlockStmt", map[string]Pat{"List": lst(pVal{initRef}, pVal{nRef})}))
-						if err == nil && !isNilLike(o.St.Obj(nRef).Fields["Init"]) {
-							err = fmt.Errorf("the statement keeps its init after hoisting (declared twice)")
-						}
+				if len(outs) == 0 {
+					err = fmt.Errorf("no path")
+				}
+				for _, o := range outs {
+					if err != nil {
+						break
 					}
-				} else if len(edits) != 0 {
-					err = fmt.Errorf("node is edited (%s) although it must be left alone", edits[0].Fn.Name())
-				} else if !sameAV(o.St.Obj(nRef).Fields["Init"], init) {
-					err = fmt.Errorf("init statement changed")
+					if o.Panicked {
+						err = fmt.Errorf("the callback panics on this node")
+						break
+					}
+					edits := cursorEdits(o.St, mark)
+					if wantHoist {
+						if len(edits) != 1 || edits[0].Fn.Name() != "Replace" {
+							err = fmt.Errorf("expected exactly one Replace, got %d edit(s)", len(edits))
+						} else {
+							err = matchTmpl(o.St, edits[0].Args[1], nd("BlockStmt", map[string]Pat{"List": lst(pVal{initRef}, pVal{nRef})}))
+							if err == nil && !isNilLike(o.St.Obj(nRef).Fields["Init"]) {
+								err = fmt.Errorf("the statement keeps its init after hoisting (declared twice)")
+							}
+						}
+					} else if len(edits) != 0 {
+						err = fmt.Errorf("node is edited (%s) although it must be left alone", edits[0].Fn.Name())
+					} else if !sameAV(o.St.Obj(nRef).Fields["Init"], init) {
+						err = fmt.Errorf("init statement changed")
+					}
 				}
 				okMsg := "left untouched"
 				if wantHoist {
